@@ -36,6 +36,7 @@ impl Prop for C14 {
             fracs: [0.0; 4],
             seed: 1,
             use_sim_fn,
+            trigger_delay_us: 0,
         };
         out.evaluations += 1;
         match run_sim(&c) {
